@@ -156,6 +156,25 @@ Proof.
   - intros H. destruct (memb x us) eqn:E; auto. exfalso. apply H. apply memb_In. auto.
 Qed.
 
+(* ------------------------------------------------------------------ the prefix in use *)
+
+Definition used (k : nat) (a : list Z) : list Z := firstn k a.
+
+Lemma used_S : forall k a, (k < length a)%nat -> used (S k) a = used k a ++ [nth k a 0].
+Proof. intros. apply firstn_S_nth. auto. Qed.
+
+Lemma used_upd : forall k a j v, (k <= j)%nat -> used k (upd a j v) = used k a.
+Proof. intros. apply firstn_upd_ge. auto. Qed.
+
+Lemma used_length : forall k a, (k <= length a)%nat -> length (used k a) = k.
+Proof. intros. unfold used. rewrite firstn_length. lia. Qed.
+
+Lemma used_in_earlier : forall i k a, (i < k)%nat -> (k <= length a)%nat -> In (nth i a 0) (used k a).
+Proof.
+  intros i k a Hi Hk. unfold used. rewrite <- (nth_firstn_lt a i k Hi).
+  apply nth_In. rewrite firstn_length. lia.
+Qed.
+
 (* ------------------------------------------------------------------ the list of free elements *)
 
 Section X.
@@ -313,8 +332,6 @@ Qed.
 
 (* ------------------------------------------------------------------ the invariant *)
 
-Definition used (k : nat) (a : list Z) : list Z := firstn k a.
-
 Definition Inv (k : nat) (a l u : list Z) : Prop :=
   length a = n /\ length l = S n /\ length u = n /\ (k < n)%nat /\
   NoDup (used k a) /\ (forall x, In x (used k a) -> 0 <= x < N) /\
@@ -322,21 +339,6 @@ Definition Inv (k : nat) (a l u : list Z) : Prop :=
   (forall i, (i < k)%nat ->
      node (used i a) (nth i u 0) /\ Nxt (used i a) (nth i u 0) (nth i a 0) /\
      Nxt (used i a) (nth i a 0) (zn l (nth i a 0))).
-
-Lemma used_S : forall k a, (k < length a)%nat -> used (S k) a = used k a ++ [nth k a 0].
-Proof. intros. apply firstn_S_nth. auto. Qed.
-
-Lemma used_upd : forall k a j v, (k <= j)%nat -> used k (upd a j v) = used k a.
-Proof. intros. apply firstn_upd_ge. auto. Qed.
-
-Lemma used_length : forall k a, (k <= length a)%nat -> length (used k a) = k.
-Proof. intros. unfold used. rewrite firstn_length. lia. Qed.
-
-Lemma used_in_earlier : forall i k a, (i < k)%nat -> (k <= length a)%nat -> In (nth i a 0) (used k a).
-Proof.
-  intros i k a Hi Hk. unfold used. rewrite <- (nth_firstn_lt a i k Hi).
-  apply nth_In. rewrite firstn_length. lia.
-Qed.
 
 (* writing a candidate at position k or later does not disturb the invariant at level k *)
 Lemma Inv_upd_a : forall k a l u j v, Inv k a l u -> (k <= j)%nat -> Inv k (upd a j v) l u.
